@@ -175,7 +175,44 @@ def check_commit_discipline(prog, rep, prop="C06"):
                         rep.undecided("COMMIT-F", init.short, f"sqlite3.connect({kw.arg}=...)", "transaction mode changed from the default the argument relies on", init.loc(n))
     mode_flag(prog, rep)
     txn_free(prog, rep, by_method)
+    own_connection(prog, rep)
     return by_method
+
+
+DURABLE_JOURNALS = ("WAL", "DELETE", "TRUNCATE", "PERSIST")
+FILE_REMOVERS = ("os.remove", "os.unlink", "os.rename", "os.replace", "os.truncate", "shutil.rmtree", "shutil.move", "shutil.copy", "shutil.copyfile", "shutil.copy2", "os.rmdir", "os.removedirs")
+
+
+def own_connection(prog, rep):
+    """what the crash argument takes for granted about the file and the connection"""
+    cls = prog.cls("SqliteStorage")
+    init = cls.methods.get("__init__")
+    from .trace import deep
+
+    rep.rule("CONN", "each SqliteStorage owns its connection: self.conn is bound once, in __init__, to sqlite3.connect(...) itself (the commit counters are per object: a connection shared through a module-level table lets K objects buffer K x threshold rows in one transaction); the journal mode asked for keeps the rollback information on disk (WAL / DELETE / TRUNCATE / PERSIST: with MEMORY / OFF a crash inside a transaction leaves a half-applied operation or a corrupt file); nothing in the module removes, renames or truncates files (the -wal file next to the database holds committed transactions that were not checkpointed yet)")
+    asg = [(m, n) for m in cls.methods.values() for n in walk_own(m.node) if isinstance(n, ast.Assign) and any(norm(t) == "self.conn" for t in n.targets)]
+    for m, n in asg:
+        v = deep(n.value, m)
+        direct = isinstance(v, ast.Call) and norm(v.func) in ("sqlite3.connect", "connect")
+        if m.name != "__init__":
+            rep.violation("CONN", m.short, "self.conn =", "the connection is re-bound outside the constructor", m.loc(n))
+        elif direct:
+            rep.ok("CONN", m.short, "self.conn =", "sqlite3.connect(...) of its own", m.loc(n))
+        elif any(isinstance(x, ast.Subscript) for x in ast.walk(v)) or any(isinstance(x, ast.Call) and isinstance(x.func, ast.Attribute) and x.func.attr in ("get", "setdefault") for x in ast.walk(v)):
+            rep.violation("CONN", m.short, "self.conn =", f"`self.conn = {norm(n.value)[:60]}` takes the connection out of a table (`{norm(v)[:60]}`): storage objects on the same file share one connection and therefore one open transaction, while each counts its own buffered statements; with K objects up to K times the documented number of completed writes is lost in a crash, and one object's commit / rollback ends the other's transaction", m.loc(n))
+        else:
+            rep.undecided("CONN", m.short, "self.conn =", f"unrecognised connection source `{norm(v)[:70]}`", m.loc(n))
+    if not asg:
+        rep.undecided("CONN", "SqliteStorage", "self.conn =", "no assignment of self.conn found", None)
+    for s_ in sql_sites(prog):
+        if s_.stmt.kind == "pragma" and str(s_.stmt.table).lower() == "journal_mode":
+            arg = (getattr(s_.stmt, "pragma_arg", None) or "").upper()
+            rep.check(arg in DURABLE_JOURNALS, "CONN", s_.fi.short, f"PRAGMA journal_mode={arg}", "a journal that survives a crash", f"`{s_.stmt.raw[:50]}`: with journal_mode={arg} the rollback journal is not on disk; a process that dies inside a transaction (the lazy store is almost always inside one) leaves the database with part of the transaction applied: an operation is split, or the file is corrupt", s_.loc())
+    mi = prog.module("aw_datastore.storages.sqlite")
+    for fi in [f for f in prog.funcs.values() if f.mod is mi]:
+        for c in walk_with_nested_exprs(fi.node):
+            if isinstance(c, ast.Call) and (norm(c.func) in FILE_REMOVERS or (isinstance(c.func, ast.Attribute) and c.func.attr in ("unlink", "rmdir", "rename", "replace", "write_text", "write_bytes", "touch") and not (isinstance(c.func.value, ast.Name) and c.func.value.id in ("self",)) and c.func.attr in ("unlink", "rmdir")) ):
+                rep.violation("CONN", fi.short, norm(c.func), f"`{norm(c)[:60]}` removes / renames a file from the storage module: the files next to the database (-wal, -shm, -journal) ARE part of the database; the -wal file holds every transaction committed since the last checkpoint, so deleting it on start-up throws away acknowledged, committed writes", fi.loc(c))
 
 
 TXN_FREE_PRAGMAS = ("wal_checkpoint", "journal_mode", "locking_mode", "auto_vacuum", "incremental_vacuum", "foreign_keys")
